@@ -5,8 +5,9 @@
                  requests registered on that client just before, the identifier newID would hand out,
                  the scripted environment; and the other requests that were set up;
    observation = per executed attempt: the PUBLISH / PUBREL Write calls made on the target's transport
-                 during the call, how the call ended, Message.ID afterwards; and what became of every
-                 other request at the end.
+                 during the call, those made on it afterwards while late / duplicate acknowledgements
+                 were delivered (written by the reader goroutine), how the call ended, Message.ID
+                 afterwards; and what became of every other request at the end.
    V_handle: [c12b_ok] — the property predicate [RetryHandle.chain_faithful] (the one proved of the
              model in RetryHandle_proofs.handle_chain_faithful) on what the implementation wrote.
    M_handle: [c12b_model_ok] — the model run on the scenario gives exactly the observation. *)
@@ -23,6 +24,8 @@ Record hscen := {
 
 Record hatt := {
   ha_wire : list wev;      (* Write calls for PUBLISH / PUBREL on the target during the call *)
+  ha_gap : list wev;       (* PUBLISH / PUBREL written on that connection AFTER the call returned, while the peer
+                              delivered late / duplicate acknowledgements for the identifier (i.e. by the reader) *)
   ha_class : N;            (* 0 nil, 1 ErrorWithRetry, 2 plain error after a failed write, 3 ErrNotConnected,
                               4 ErrInvalidQoS, 5 panic, 6 did not return, 7 any other error *)
   ha_cause : N;            (* of an ErrorWithRetry: 1 write error, 2 ErrClosedTransport, 3 context; else 0 *)
@@ -48,7 +51,7 @@ Definition hb_kind (c : N) : wkind :=
   match c with 0 => WkAck | 1 => WkRec | 2 => WkComp | 3 => WkSub | _ => WkUnsub end.
 Definition hbReg (kd i : N) (o : nat) : bmop := MReg (hb_kind kd) i o.
 Definition hbUnreg (kd i : N) : bmop := MUnreg (hb_kind kd) i.
-Definition hbA (w : list wev) (cl ca i : N) : hatt := {| ha_wire := w; ha_class := cl; ha_cause := ca; ha_id := i |}.
+Definition hbA (w g : list wev) (cl ca i : N) : hatt := {| ha_wire := w; ha_gap := g; ha_class := cl; ha_cause := ca; ha_id := i |}.
 Definition hbO (o k : nat) (kd i : N) : nat * nat * wkind * N := (o, k, hb_kind kd, i).
 
 (* ---------- equality tests ---------- *)
@@ -59,7 +62,7 @@ Definition wev_eqb (a b : wev) : bool :=
   | _, _ => false
   end.
 Definition hatt_eqb (a b : hatt) : bool :=
-  list_eqb wev_eqb (ha_wire a) (ha_wire b) && (ha_class a =? ha_class b) && (ha_cause a =? ha_cause b)
+  list_eqb wev_eqb (ha_wire a) (ha_wire b) && list_eqb wev_eqb (ha_gap a) (ha_gap b) && (ha_class a =? ha_class b) && (ha_cause a =? ha_cause b)
   && (ha_id a =? ha_id b).
 Definition hobs_eqb (a b : hobs) : bool :=
   list_eqb hatt_eqb (ho_atts a) (ho_atts b) && list_eqb N.eqb (ho_fates a) (ho_fates b).
@@ -86,6 +89,7 @@ Definition hb_class (o : boutcome) : N * N :=
 
 Definition hb_att (w0 w1 : bworld) (m : hmsg) (o : boutcome) : hatt :=
   {| ha_wire := map (fun x => wev_norm (snd x)) (skipn (length (bw_wire w0)) (bw_wire w1));
+     ha_gap := [];   (* the reader writes nothing for a stray acknowledgement: RetryHandle.serve_stray_ack *)
      ha_class := fst (hb_class o); ha_cause := snd (hb_class o); ha_id := h_id m |}.
 
 Fixpoint hb_chain (w : bworld) (o : boutcome) (n : nat) (ss : list bstep) : bworld * list hatt :=
@@ -136,12 +140,25 @@ Definition hb_first_pub_id (l : list wev) : option N :=
   | _ => None
   end.
 
+Fixpoint hb_gaps_ok (phase2 : bool) (atts : list hatt) : bool :=
+  match atts with
+  | [] => true
+  | a :: r =>
+      let phase2 := phase2 || bh_has_rel (ha_wire a) in
+      forallb (fun e => match e with WRel _ _ => phase2 | WPub _ _ _ => false end) (ha_gap a)
+      && hb_gaps_ok phase2 r
+  end.
+
 Definition c12b_ok (c : hscen * hobs) : bool :=
   let '(sc, ob) := c in
   let atts := ho_atts ob in
-  let wire := concat (map ha_wire atts) in
+  (* everything written for the message on the connections, in time order, reader included *)
+  let wire := concat (map (fun a => ha_wire a ++ ha_gap a) atts) in
   let id0 := match atts with a :: _ => ha_id a | [] => 0 end in
   chain_faithful (hc_msg sc) wire
+  (* outside a call nothing is transmitted for the message, except PUBREL once the request is in its
+     second phase (evidenced by a call having written PUBREL before) *)
+  && hb_gaps_ok false atts
   (* the caller's Message.ID: the caller's own if it gave one, never changed by a retry, and the one on the wire *)
   && forallb (fun a => (ha_class a =? 6) || (ha_id a =? id0)) atts
   && ((h_id (hc_msg sc) =? 0) || (id0 =? h_id (hc_msg sc)) || match atts with a :: _ => ha_class a =? 6 | [] => true end)
